@@ -108,6 +108,10 @@ class FitProperties(dict):
         elif key not in FP_RESULTS:
             msg = "Key '{}' not in FP_DEFAULT".format(key)
             raise FitKeyError(msg)
+        if key in FP_DEFAULT:
+            # Store a copy: the comparisons above can only detect changes
+            # if the caller cannot modify the stored object in place.
+            value = copy.deepcopy(value)
         super(FitProperties, self).__setitem__(key, value)
 
     def reset(self):
